@@ -108,6 +108,13 @@ def call_name(node):
 
 def expr(node, env, ctx):
     from fractions import Fraction
+    # extension hook (used by translate/problemdefs.py): a context may translate further node kinds itself; it
+    # returns None for everything it does not handle.  Contexts without `ext` behave exactly as before.
+    ext = getattr(ctx, 'ext', None)
+    if ext is not None:
+        r = ext(node, env, ctx)
+        if r is not None:
+            return r
     if isinstance(node, ast.Constant):
         return num_of_const(node, ctx.src)
     if isinstance(node, ast.Name):
